@@ -6054,8 +6054,11 @@ class FlowIRConcrete(object):
         if ret.get('command', {}).get('interpreter', None) is not None:
             ret['command']['expandArguments'] = 'none'
 
-        # VV: If this is a fully resolved flowir-configuration then store it in the cache
-        if need_fully_resolved_flowir:
+        # VV: If this is a fully resolved flowir-configuration then store it in the cache. The cache label does not
+        #     record @ignore_convert_errors: a configuration that was resolved leniently may contain values which
+        #     could not be converted to their type, queries with ignore_convert_errors=False must not receive it
+        #     (they must raise). A configuration that was resolved strictly is what a lenient query computes too.
+        if need_fully_resolved_flowir and not ignore_convert_errors:
             self._cache[cache_label] = deep_copy(ret)
 
         return ret
